@@ -131,7 +131,7 @@ def mem_operand(expr, ctx):
         bs = ctx['consts'][m.group(1)]
         if len(bs) != 16:
             raise Unsupported('constant %s is not 16 bytes' % m.group(1))
-        return 'MemConst [%s]' % ';'.join(map(str, bs))
+        return 'MemConst [%s]%%N' % ';'.join(map(str, bs))
     m = re.fullmatch(r'pd\[(\d+)\]', expr)
     if m and ctx['scratch'] is not None:
         k = int(m.group(1))
@@ -254,7 +254,7 @@ def translate_asm(templ, outs, ins, ctx):
             if len(ops) != 3:
                 raise Unsupported(templ)
             a, d = opnd(ops[1]), opnd(ops[2])
-        return '%s %d (%s) (%s)' % ('SrlW' if base == 'psrlw' else 'SllW', k, d[1], a[1])
+        return '%s %d%%N (%s) (%s)' % ('SrlW' if base == 'psrlw' else 'SllW', k, d[1], a[1])
     raise Unsupported('mnemonic %s' % mn)
 
 
@@ -373,7 +373,7 @@ def translate_function(body, consts, gfgen_is_cauchy):
     return ('{| width := %d; step := %d;\n    prologue := %s;\n    chunk_init := %s;\n    loop_lo := %d;\n    loop_body := %s;\n'
             '    chunk_mid := %s;\n    chunk_fini := %s;\n    nd1_special := %s |}'
             % (ctx['width'], step, lst(prologue), lst(init), lo, lst(loop), lst(mid), lst(fini),
-               'None' if nd1 is None else 'Some %d' % nd1))
+               'None' if nd1 is None else 'Some %d%%nat' % nd1))
 
 
 FUNC_RE = re.compile(r'\bvoid\s+(raid_(gen|rec)(\w)_(\w+))\s*\(([^)]*)\)\s*\{')
@@ -420,7 +420,7 @@ def translate(snap):
             gens.append((name, g or 'G1', term))
     lines = ["(* GENERATED from raid/x86.c, raid/x86z.c by harness/gen/x86asm.py -- do not edit *)",
              "From Coq Require Import NArith List String.", "From Snap.Raid Require Import GenModel.",
-             "From Snap.Simd Require Import SimdDefs.", "Import ListNotations.", "Local Open Scope N_scope.", ""]
+             "From Snap.Simd Require Import SimdDefs.", "Import ListNotations.", ""]
     seen = set()
     for name, g, term in gens:
         if name in seen:
